@@ -129,8 +129,8 @@ class PassHarness(Harness):
     max_decisions = 400
     cut_allowance = 10 ** 6       # loop unwinding cuts are expected and counted
     W = 80
-    timeout_ms = 10000
-    prove_timeout_ms = 30000
+    timeout_ms = 30000
+    prove_timeout_ms = 90000
 
     def __init__(self, prop, prog, config, symconst):
         self.prop = prop
